@@ -29,6 +29,7 @@ def default_profile(rng):
         "rank_reducing": rng.random() < 0.4,
         "ifs": rng.random() < 0.3,
         "mixed_lb": rng.choice([0, 0, 0.3]),
+        "deallocs": rng.choice([0, 0, 0.5]),
         "counter": rng.random() < 0.15,
     }
 
@@ -126,6 +127,8 @@ class LoopGen:
                 out.append({"k": "alloc", "name": nm, "site": site, "sizes": sizes})
                 self.tag += 1
                 out.append({"k": "op", "tag": self.tag, "args": [nm], "bufarg": True})
+                if p.get("deallocs") and r.random() < p["deallocs"]:
+                    out.append({"k": "dealloc", "buf": nm})  # the buffer is freed again in the same body
                 bufs = bufs + [nm]
             else:
                 nm = self.fresh("s")
@@ -190,6 +193,8 @@ def emit(ast) -> str:
                 e(ind, f'{s["name"]} = arith.{s["op"]} {s["a"]}, {s["b"]} : index')
             elif k == "alloc":
                 e(ind, f'{s["name"]} = memref.alloc({s["sizes"][0]}, {s["sizes"][1]}) {{alignment = 64 : i64, vsite = {s["site"]} : i64}} : {TB}')
+            elif k == "dealloc":
+                e(ind, f'memref.dealloc {s["buf"]} : {TB}')
             elif k == "dim":
                 e(ind, f'{s["name"]} = memref.dim {s["src"]}, %c{s["idx"]} : {s.get("srcty", TA)}')
             elif k == "min":
